@@ -97,4 +97,6 @@ def oracle(p, run, exact):
                     fails.append({"clause": "op %s changed pool[%d], which is not its target" % (o[0], j),
                                   "op": i, "diff": "snapshot of pool[%d] differs" % j})
         prev = snaps
+    for msg in getattr(m, "purelog", [])[:2]:
+        fails.append({"clause": "a method that returns a new aggregator shares nothing with its operand", "diff": msg})
     return fails[:5]
